@@ -15,6 +15,11 @@
 // and another key holder) over one scripted network, the second one's first attempt receiving what
 // the first one really sent to it; (c) silent-coordinator cases with traffic of other peers (forged
 // initiate / start / fail messages at intervals much shorter than CoordinatorTimeout).
+//
+// Round 4 addition (real.go): scenarios with the REAL signing processes on the fixture key shares over an
+// in-memory network - the failure causes as the real processes produce them (a failed send of a round
+// message, a dead subset member, a culprit blamed by tss-lib, SubsetError) and the state the real
+// process objects carry into the replacement attempt.
 package main
 
 import (
@@ -104,6 +109,9 @@ type Case struct {
 	// "open-seat" (as coded a non-candidate wins: the known finding).
 	Bully      []BMsg `json:"bully,omitempty"`
 	BullyClass string `json:"bully_class,omitempty"`
+	// real (real.go): real signing processes on the fixture key shares over an in-memory network; the
+	// fields above are the model's inputs, derived from the scenario when the case is generated
+	Real *RealSpec `json:"real,omitempty"`
 }
 
 func (c Case) script() []BMsg {
@@ -171,6 +179,9 @@ type Obs struct {
 	// the code under test - handed to Coq as Undriven: never judged, counted as broken correspondence
 	Harness string `json:"harness_error,omitempty"`
 	B         *Obs       `json:"b,omitempty"` // duo: the other relayer's observation
+	// real: the relayer's replacement attempt completed (its coordinator: with a signature that verifies under
+	// the group key): 0 = not awaited, 1 = yes, 2 = no
+	Sig int `json:"sig,omitempty"`
 }
 
 const unknownPeer = 9999
@@ -793,6 +804,9 @@ func runNow(c Case) Obs {
 	if c.Kind == "duo" {
 		return driveDuo(c)
 	}
+	if c.Kind == "real" {
+		return runReal(c)
+	}
 	wait := 30 * time.Millisecond
 	if len(c.script()) > 0 {
 		wait = 300 * time.Millisecond
@@ -1079,6 +1093,9 @@ func prefetch(cases []Case, workers int) {
 	var todo []Case
 	preMu.Lock()
 	for _, c := range cases {
+		if c.Kind == "real" {
+			continue // the scenarios have their own workers (real.go)
+		}
 		k := caseKey(c)
 		if _, ok := pre[k]; ok {
 			continue
@@ -1130,8 +1147,14 @@ func run(c Case) Obs {
 
 func gen(r *vgen.Rng, tier string) []Case {
 	out := genCases(r, tier)
+	// the scenarios with real signing processes start at once (the FROST one first: it sleeps ten seconds)
+	// and are reported last
+	real := genReal(r, tier)
+	for _, c := range real {
+		startScenario(c)
+	}
 	prefetch(out, 4)
-	return out
+	return append(out, real...)
 }
 
 func genCases(r *vgen.Rng, tier string) []Case {
@@ -1569,6 +1592,19 @@ func coqObs(o Obs) string {
 }
 
 func coq(c Case, o Obs) string {
+	if c.Kind == "real" && o.Harness == "" {
+		// the failing / left-out relayer of a scenario with real processes: a Fail case of the model whose
+		// cause is what the network injected, plus: who is alive, did the replacement attempt complete
+		c2, o2 := c, o
+		c2.Kind = "fail"
+		var live []int
+		for _, h := range c.Holders {
+			if c.Real.Shape == "send-fail" || h != c.Real.Partner {
+				live = append(live, h)
+			}
+		}
+		return "Real (" + coq(c2, o2) + ") " + PL(live) + " " + vgen.N(uint64(o.Sig))
+	}
 	if o.Harness != "" {
 		// the runner could not drive the case: never judged, counted as broken correspondence
 		o2 := o
@@ -1633,6 +1669,21 @@ func kind(c Case) string {
 	if c.Kind == "duo" {
 		return "duo"
 	}
+	if c.Kind == "real" {
+		role := "failing"
+		if c.Real.Observe == c.Real.Third {
+			role = "left-out"
+		}
+		first := "coordinator"
+		if sortedByKey(c.Peers, c.Sid, c.Holders)[0] != c.Real.F {
+			first = "member"
+		}
+		shape := c.Real.Shape
+		if c.Real.Busy {
+			shape += "-busy"
+		}
+		return "real:" + c.Sign + ":" + shape + ":" + first + ":" + role
+	}
 	if c.Kind == "silent" {
 		traffic := ""
 		if len(c.Msgs1) > 0 {
@@ -1689,6 +1740,7 @@ func main() {
 			"plus two real relayers over one network (the coordinator and a key holder whose ready answer is lost / late / in time); " +
 			"plus degenerate failure values (tss.Error with no culprit / a culprit without key / a repeated culprit / this relayer itself, CoordinatorError with the empty id / this relayer / a peer without key, CommunicationError and SubsetError with the empty id; errors.Join(nil, e, nil), double %w, two %w) x both roles; " +
 			"plus re-elections visited by a peer outside the candidate list (excluded culprit or peer without key) sending Election / Alive / Select messages before, between and after the first candidate's announcement, at the first candidate and at later ones, followed by initiate / start messages of the intruder and of the legitimate coordinator; " +
+			"plus real-process scenarios (real.go): two or three real Coordinators with the real ECDSA / FROST Signing objects on the fixture key shares (3 holders, threshold 1; one process object per relayer for all attempts) over an in-memory network, first attempt failing through the real code - one chosen send of a round message of the coordinator / the other member fails with the transport's CommunicationError, a scripted subset member (ready sender or first coordinator) is dead, a scripted member's round message makes the real party blame it, the left-out holder gets the real SubsetError - observed: the failing relayer and the left-out holder through election, announcement, both Runs and the verified signature of the replacement attempt; " +
 			"distinct = distinct input JSON; non-trivial = the first attempt reached Run (or the coordinator stayed silent)",
 		ShardSize: 100,
 	})
